@@ -118,6 +118,8 @@ func RewriteFile(path string, src []byte, st *Stats) ([]byte, error) {
 					rep(x, "verifRWMutex")
 				} else if x.Sel.Name == "Mutex" {
 					rep(x, "verifMutex")
+				} else if x.Sel.Name == "WaitGroup" {
+					rep(x, "verifWaitGroup")
 				}
 			}
 		}
